@@ -235,3 +235,5 @@ def check(ctx):
         ctx.guarded(R + "::read", TRG, canceled_lock, "read/cancel-panic-only-if-canceled", "read() raises the Cancel panic only when its wait was cancelled", rule="R-EXIT", pred_label="edge `self.lock()` is Err(Canceled)")
     else:
         ctx.missing("R-PAIR", R + "::read", "read/canceled-releases-reader-mutex", "no `Err(Canceled)` test on self.lock() in RwLock::read")
+    ctx.import_rules("C05", r"^handshake|^waker|^handover|^acquire-evidence|^mutex/")
+    shared.drops_do_not_block_unmasked(ctx)
